@@ -402,6 +402,10 @@ func (c worldCDN) UploadGetCDNFile(ctx context.Context, req *tg.UploadGetCDNFile
 		delete(w.tokens, string(req.FileToken))
 		w.bumpGen()
 		return nil, tgerr.New(400, "FILE_TOKEN_INVALID")
+	case w.event("request-token-invalid"):
+		delete(w.tokens, string(req.FileToken))
+		w.bumpGen()
+		return nil, tgerr.New(400, "REQUEST_TOKEN_INVALID")
 	case w.event("reupload"):
 		rt := []byte(fmt.Sprintf("rt-%d", ord))
 		w.pendingReup[string(rt)] = true
